@@ -143,6 +143,10 @@ func (t *Tracker) sql(c *world.StmtCtx) (world.FaultAction, bool) {
 		return world.FaultAction{Kind: "fail", Errno: 1105}, true
 	case "hang":
 		return world.FaultAction{Kind: "hang"}, true
+	case "hang+expire":
+		// the statement hangs to the caller's deadline while the caller's session expires
+		go s.ExpireSession(inst)
+		return world.FaultAction{Kind: "hang"}, true
 	case "delay":
 		return world.FaultAction{Kind: "delay", Delay: 7 * time.Second}, true
 	case "server-dies-before":
